@@ -1,7 +1,7 @@
 """Implementation driver for C01 C03 C04 C05: the real Receiver.listen() under the virtual-time loop.
 
 case = dict(A, P, N, wtt_us, stop_us, ends, horizon_us, ack_type, msgs=[dict(at, kind, style, dur, out, ack,
-            pre_fail, post_fail, save_fail, tlabel_us)])       (all instants / durations in integer microseconds,
+            pre_fail, post_fail, save_fail, tlabel_us, cleanup_us, payload (byte values of a malformed message))])       (all instants / durations in integer microseconds,
             dur = -1: never ends)
 observation = dict(raw=[[t_us, tag, a, b], ...], lts=[Coq event literals], cut, returned)"""
 import asyncio
@@ -98,13 +98,21 @@ def run_case(sc, opts):
         async def ta(i: int, dur: int, out: str):
             log.add("body.in", i)
             try:
-                if dur < 0:
-                    await asyncio.Event().wait()
-                elif dur > 0:
-                    await asyncio.sleep(dur / 1e6)
+                try:
+                    if dur < 0:
+                        await asyncio.Event().wait()
+                    elif dur > 0:
+                        await asyncio.sleep(dur / 1e6)
+                except asyncio.CancelledError:
+                    # slow cancellation: the body keeps awaiting while it cleans up (closing a connection, ...)
+                    cl = sc["msgs"][i].get("cleanup_us")
+                    if cl:
+                        log.add("body.cleanup", i)
+                        await asyncio.sleep(cl / 1e6)
+                    raise
                 return finish(i, out)
             finally:
-                log.add("body.out", i)
+                log.add("body.out", i)       # outermost finally: the body has REALLY ended
 
         @br.task(task_name="ts")
         def ts(i: int, dur: int, out: str):
@@ -117,7 +125,9 @@ def run_case(sc, opts):
         msgs = []
         for i, m in enumerate(sc["msgs"]):
             if m["kind"] == "bad":
-                data = b"\xff not a message %d" % i
+                # a fresh bytes object per message (never the receiver's own QUEUE_DONE object, whatever its value)
+                data = bytes(bytearray(m["payload"])) if m.get("payload") is not None else b"\xff not a message %d" % i
+                assert data is not rmod.QUEUE_DONE and bytes(data) not in ids, "scenario: duplicate payload"
             else:
                 name = "unknown_task" if m["kind"] == "unk" else ("ts" if m.get("style") == "sync" else "ta")
                 labels = {}
